@@ -7,6 +7,7 @@ import (
 	"strings"
 
 	"gitee.com/xuesongtao/protoc-go-valid/valid"
+	"vmon/internal/clause"
 	"vmon/internal/core"
 	"vmon/internal/drive"
 	"vmon/internal/gen"
@@ -168,7 +169,7 @@ func runC03(c *core.Ctx) {
 	// ---- keys absent / empty / duplicated for map and URL inputs
 	k := 0
 	for _, text := range []string{"required", "required|m_req", "required,to=1~3|m_r", "to=1~3|m_r,required|必_req", "phone|m_r", "to=2~3"} {
-		for _, shape := range []string{"absent", "empty", "nonempty", "dup-empty-first", "dup-empty-last", "absent-among-others", "no-query", "bare-after-value", "bare-only", "nil-map", "raw-equals-in-value", "amp-leading", "amp-double-before", "amp-double-after", "amp-trailing"} {
+		for _, shape := range []string{"absent", "empty", "nonempty", "dup-empty-first", "dup-empty-last", "absent-among-others", "no-query", "bare-after-value", "bare-only", "nil-map", "raw-equals-in-value", "amp-leading", "amp-double-before", "amp-double-after", "amp-trailing", "after-bad-escape", "after-truncated-escape"} {
 			for _, keyName := range []string{"a", "ids[]", "姓名", "first name", "a+b"} {
 				k++
 				if !c.Mine(k) {
@@ -351,6 +352,10 @@ func c03Absent(res *core.Result, text, shape, keyName string) {
 		params = []kv{{keyName, ""}, {"\x00emptypair", ""}, {"\x00emptypair", ""}, {"b", "x"}}
 	case "amp-trailing":
 		params = []kv{{keyName, "abcd"}, {"\x00emptypair", ""}}
+	case "after-bad-escape": // "?sig=%zz&<key>=ab": a parameter that cannot be decoded does not hide the ones after it
+		params = []kv{{"\x00rawpiece", "sig=%zz"}, {keyName, "ab"}}
+	case "after-truncated-escape":
+		params = []kv{{"b", "x"}, {"\x00rawpiece", "sig=a%2"}, {keyName, "abcd"}, {"\x00rawpiece", "%=1"}}
 	case "nil-map":
 		params = nil // the map input is a nil map: every key is missing
 	case "raw-equals-in-value":
@@ -367,6 +372,10 @@ func c03Absent(res *core.Result, text, shape, keyName string) {
 		q := []string{}
 		entries := []ref.FlatEntry{}
 		for _, p := range params {
+			if p.k == "\x00rawpiece" {
+				q = append(q, p.v)
+				continue
+			}
 			if p.k == "\x00emptypair" {
 				q = append(q, "")
 				continue
@@ -393,12 +402,26 @@ func c03Absent(res *core.Result, text, shape, keyName string) {
 		env.ExpectFlat(entries, rules, func(k string) string { return k }, "", false, nil)
 		exps := env.Finish()
 		out := drive.Call(func() error { return valid.Url(u, rm) })
+		if strings.HasPrefix(shape, "after-") && !out.Nil && out.Panic == "" {
+			// the undecodable pieces are reported by clauses of their own (C13: an error, never a
+			// crash); what is judged here is every other parameter
+			kept, bad := []string{}, 0
+			for _, part := range strings.Split(out.Err, clause.Sep) {
+				if strings.HasPrefix(strings.TrimSpace(part), "url unescape is failed") {
+					bad++
+					continue
+				}
+				kept = append(kept, part)
+			}
+			res.Count("undecodable_parameter_clauses", int64(bad))
+			out = drive.Out{Err: strings.Join(kept, clause.Sep), Nil: len(kept) == 0}
+		}
 		if judged, _ := compareCall(res, "C03|url-keys", shape+c03KeyClass(keyName), out, exps, false, env, true, vWitness{Entry: "Url", Value: u, Rules: rules}); judged {
 			res.DistinctEnum(1)
 		}
 	}
 	// map (no duplicates in a map)
-	if !strings.HasPrefix(shape, "dup") && shape != "no-query" && !strings.HasPrefix(shape, "bare") && !strings.HasPrefix(shape, "amp-") && shape != "raw-equals-in-value" {
+	if !strings.HasPrefix(shape, "dup") && shape != "no-query" && !strings.HasPrefix(shape, "bare") && !strings.HasPrefix(shape, "amp-") && !strings.HasPrefix(shape, "after-") && shape != "raw-equals-in-value" {
 		m := map[string]string{}
 		if shape == "nil-map" {
 			m = nil
